@@ -310,7 +310,9 @@ structure Cfg where
 structure World where
   /-- call name ↦ current content of the definition's metadata map (definition key order) -/
   cells : List (String × List T)
-  /-- scenario name ↦ number of `[next]` draws so far (one iterator per scenario) -/
+  /-- iterator owner ↦ number of `[next]` draws so far. `convertScenarioToAmmo` makes one `NextIterator` per scenario
+  and `InitIterator`s the call's (shared) preprocessor object with it, so a call's draws go to the iterator of the
+  LAST scenario that uses the call; all calls draw from the same segment `.source.users[next]`. -/
   iters : List (String × Nat)
   /-- (gun, scenario, call) ↦ template cache of that gun -/
   caches : List ((Nat × String × String) × Cache Char)
@@ -320,6 +322,10 @@ def assocGet {α β} [BEq α] (l : List (α × β)) (k : α) : Option β := (l.f
 
 def assocSet {α β} [BEq α] (l : List (α × β)) (k : α) (v : β) : List (α × β) :=
   if l.any (·.1 == k) then l.map fun (k', v') => if k' == k then (k', v) else (k', v') else l ++ [(k, v)]
+
+/-- name of the scenario whose iterator the call's preprocessor ends up with -/
+def iterOwner (c : Cfg) (cd : CallDef) : String :=
+  (((c.scns.filter fun s => s.reqs.contains cd.name).getLast?).map (·.name)).getD ""
 
 def initWorld (c : Cfg) : World :=
   { cells := c.calls.map fun cd => (cd.name, cd.md.map (·.2)), iters := [], caches := [] }
@@ -367,8 +373,9 @@ def shootStep (v : Variant) (c : Cfg) (gun : Nat) (scn : String) (cd : CallDef) 
   if cd.pre && c.users.isEmpty then .unmodelled "no-users" else
   if needsMissing cd sv then .unmodelled "undefined-variable" else
   -- preprocessor: u = source.users[next]
-  let drawn := (assocGet w.iters scn).getD 0
-  let (u, iters) := if cd.pre then (c.users.getD (drawn % c.users.length) "", assocSet w.iters scn (drawn + 1)) else ("", w.iters)
+  let owner := iterOwner c cd
+  let drawn := (assocGet w.iters owner).getD 0
+  let (u, iters) := if cd.pre then (c.users.getD (drawn % c.users.length) "", assocSet w.iters owner (drawn + 1)) else ("", w.iters)
   let vars : Vars Char := [(vU, u.toList), (vA, (sv.a.getD "").toList), (vI, (sv.i.getD "").toList), (vG, c.g.toList)]
   -- templater: payload (pure), metadata (shared map + per-gun cache)
   let payload := cd.payload.map fun (fname, kind, t) => (fname, pvalOf kind (String.ofList (render vars t)))
@@ -439,6 +446,6 @@ def dash (s : String) : String := if s.isEmpty then "-" else s
 
 def traceText (tr : List (Nat × Outcome)) : String :=
   "t=" ++ String.intercalate ";" (tr.map fun (g, o) =>
-    toString g ++ ":" ++ dash (String.intercalate "+" o.calls) ++ ":" ++ dash (String.intercalate "+" o.samples))
+    toString g ++ "#" ++ dash (String.intercalate "+" o.calls) ++ "#" ++ dash (String.intercalate "+" o.samples))
 
 end Pandora.Model.C20
